@@ -1635,7 +1635,10 @@ impl Conv<&InstDeclaration> for ir::Declaration {
                                                 expr_comptime,
                                                 &token.beg,
                                             );
-                                        } else {
+                                        } else if expr_comptime.clock_domain != ClockDomain::None {
+                                            // A constant carries no domain and
+                                            // cannot represent the callee domain:
+                                            // it would accept every later connect.
                                             clock_domain_table.insert(
                                                 dst_comptime.clock_domain,
                                                 expr_comptime.clone(),
